@@ -62,7 +62,11 @@ func (e *Ema[T]) Compute(c <-chan T) <-chan T {
 		sma := NewSma[T]()
 		sma.Period = e.Period
 
-		before := <-sma.Compute(helper.Head(c, e.Period))
+		before, ok := <-sma.Compute(helper.Head(c, e.Period))
+		if !ok {
+			return
+		}
+
 		result <- before
 
 		multiplier := e.Smoothing / T(e.Period+1)
